@@ -33,6 +33,8 @@ def _bracket_close(text, start, eqs):
 def scan(text):
     toks = []
     i, n = 0, len(text)
+    if text.startswith("\ufeff"):      # a UTF-8 byte order mark at the very start is permitted and is not part of the text
+        i = 1
     while i < n:
         c = text[i]
         m = SPACE.match(text, i)
